@@ -658,6 +658,35 @@ def rule_invalidation_tables(check, rule, precision_rule=None):
                             'then invalidates `base` itself, and a later forwarding call on `base.other(...)` can no longer be resolved'
                             % (norm(ro_) if ro_ is not None else 'default False'), key=key,
                             witness='log(self.name); return self.impl(*args, **kwargs) falls back to the plain signature')
+    # order inside process_Call: Python evaluates the explicit argument expressions of a call before it unpacks *args/**kwargs,
+    # and resolving them is what notices `inner(kwargs.pop('x'), **kwargs)` / `inner(take(kwargs), **kwargs)`; the star
+    # arguments must therefore be resolved *after* the explicit ones
+    body = fi.node.body
+    nodename = fi.params()[0][1]
+    expl, stars_ = [], []
+    for i_, st_ in enumerate(body):
+        for n_ in ast.walk(st_):
+            if isinstance(n_, (ast.ListComp, ast.GeneratorExp, ast.DictComp)) and \
+                    any(isinstance(c_, ast.Call) and norm(c_.func).endswith('.resolve_name') for c_ in ast.walk(n_)) and \
+                    norm(n_.generators[0].iter) in ('%s.args' % nodename, '%s.keywords' % nodename):
+                expl.append(i_)
+            if isinstance(n_, ast.Call) and norm(n_.func).endswith('.resolve_name') and n_.args and isinstance(n_.args[0], ast.Name) \
+                    and not isinstance(getattr(n_, '_parent', None), (ast.ListComp, ast.GeneratorExp, ast.DictComp)):
+                # resolve_name(<local>) where the local was assigned from get_starargs/get_kwargs
+                src_ = [a_ for a_ in ast.walk(fi.node) if isinstance(a_, ast.Assign) and any(isinstance(t_, ast.Name) and t_.id == n_.args[0].id for t_ in a_.targets)
+                        and isinstance(a_.value, ast.Call) and norm(a_.value.func) in ('get_starargs', 'get_kwargs')]
+                if src_:
+                    stars_.append(i_)
+    key = 'process_Call|stars-after-explicit'
+    if expl and stars_:
+        if max(expl) < min(stars_):
+            check.holds(rule, site_of(fi, body[min(stars_)]), 'the star arguments of a call are resolved after its explicit arguments', key=key)
+        else:
+            check.violation(rule, site_of(fi, body[min(stars_)]), 'the star arguments of a call are resolved before its explicit arguments: an explicit '
+                            'argument that alters or hands on **kwargs/*args (evaluated first by Python) no longer hides what the star argument '
+                            'forwards', key=key, witness="def f(**kwargs): return inner(kwargs.pop('x'), **kwargs) advertises x")
+    else:
+        check.inconclusive(rule, site_of(fi, fi.node), 'resolution of explicit / star arguments in process_Call not recognised', key=key)
     # argument values: resolve_name(arg) must visit the expression (ro must not be set) so that handing
     # *args/**kwargs to other code invalidates it
     for node in ast.walk(fi.node):
